@@ -1,4 +1,5 @@
 import DEvo.Run.Migrations
+import DEvo.Generated.Tables
 
 /-! # C10 — handing an app over to Django migrations is clean and one-way -/
 
@@ -92,5 +93,30 @@ theorem C10_second_run_noop (st : MigState) (s : Nat) (hs : s ≤ st.m) :
 /-- non-vacuity: chain of 3, first marked applied, nothing recorded before -/
 example : runMig ⟨3, []⟩ 1 = ⟨3, [0, 1, 2]⟩ ∧ extraApplied ⟨3, []⟩ 1 = [0] ∧ toExecute ⟨3, []⟩ 1 = [1, 2] := by
   decide
+
+/-! ## what the stored signature of an app lists -/
+
+/-- the `applied_migrations` setter handed the rows of django_migrations: the names recorded for the app's LABEL -/
+def signatureLists (appId : String) (rows : List (String × String)) : List String :=
+  (rows.filter (fun r => r.1 == appId)).map (·.2)
+
+/-- **the stored signature lists exactly the migrations recorded for the app's label** - whatever its legacy
+(module) name is, and whatever other apps have recorded -/
+theorem C10_signature_lists_exactly (appId : String) (rows : List (String × String)) (name : String) :
+    name ∈ signatureLists appId rows ↔ (appId, name) ∈ rows := by
+  unfold signatureLists
+  simp only [List.mem_map, List.mem_filter]
+  constructor
+  · rintro ⟨⟨l, n⟩, ⟨hm, hl⟩, hn⟩
+    have : l = appId := by simpa using hl
+    subst this
+    simp only at hn
+    subst hn
+    exact hm
+  · intro h
+    exact ⟨(appId, name), ⟨h, by simp⟩, rfl⟩
+
+/-- the source matches on the app id (read by the translator on every run) -/
+theorem C10_source_applied_migrations_key : DEvo.Generated.appliedMigrationsKey = "app_id" := by decide
 
 end DEvo.Props.C10
